@@ -84,7 +84,8 @@ CHECKS = {
              "dependency order and equality of every component across a bounded family of request sets and orders are decided as "
              "polynomial identities in all spectrum/strain symbols; on every explored path where approximate-equality de-duplication "
              "merges two different parameter sets z3 shows they agree to 1e-9, and the whole calculation runs to completion on every such "
-             "path (request sets with mixed shear keys included).",
+             "path (request sets with mixed shear keys included); a task list calculated a second time with other strains returns the values of "
+             "a fresh list.",
         note="Request sets of size 3-20 other than the listed ones are outside; identity obligations assume generic strain fractions "
              "(structural de-dup cut), the merge-tolerance obligations remove that assumption for small request sets.",
         design="3/C04"),
@@ -113,7 +114,8 @@ CHECKS = {
         text="Partial: in IEEE binary64 semantics cvc5 shows no finite (omega in [30,1500] cm^-1, T in [0.01,3000] K) makes Q, Q1 or Q2 "
              "NaN/inf and that Q1, Q2 vanish (<=1e-290) above the exp overflow threshold; symbolically no 0/0 or x/0 survives into any "
              "assembled component and the T=0 row carries no thermal term; for mixed shear keys the calculation completes with defined "
-             "values on every path of the approximate-equality task merging (equal / nearly equal axial strain fractions).",
+             "values on every path of the approximate-equality task merging (equal / nearly equal axial strain fractions); no undefined value for "
+             "temperature grids starting at 0 K, without a 0 K point (T_MIN > 0) and with the 0 K point not in first position.",
         note="The configuration sweep 'every schema-valid configuration x interpolator completes' is library behaviour (qha, scipy, LAPACK) "
              "and outside; numpy.exp is modelled by the listed axioms (each a true fact of a faithful exp); eigen-frame real-ness is a "
              "concrete check over the 15 keys.",
@@ -154,8 +156,8 @@ CHECKS = {
         text="Partial (wiring): for every keyword and alias of the registry loaded from the working tree's YAML and both bases, the table "
              "handed to the qha writer is, for all values of the symbolic results, the in-memory quantity (adiabatic vs isothermal tensor, "
              "averages, velocities, V, P) times the documented unit factor, under the documented file name, with T / P(GPa) / V(A^3) axes; "
-             "aliases identical; fname/unit overrides honoured, also when the same rule is listed several times for one base; write_output "
-             "dispatches per base.",
+             "aliases identical; a unit override is honoured for every rule (both bases), fname overrides too, also when the same rule is "
+             "listed several times for one base; write_output dispatches per base.",
         note="The textual table (labels as printed, the four dropped guard temperatures, precision) is produced by qha/pandas and is "
              "outside the solver claim; the concrete replay re-reads real files only to confirm a counterexample.",
         design="3/C15"),
@@ -194,7 +196,9 @@ CHECKS = {
         text="Merge: per skeleton pair 'Confirmed over all paths' for: result == oracle merge, every user leaf survives, default-only "
              "leaves taken, key set = union, inputs unmodified, idempotent, insertion-order independent (all leaf values). Validation: per "
              "documented field the schema neither rejects a documented-valid nor accepts a documented-invalid value (all JSON kinds, all "
-             "numbers); required sections, closed objects, shipped files, YAML=JSON loading.",
+             "numbers); required sections, closed objects, shipped files; YAML and JSON spellings of every documented field with delicate values "
+             "(numeric-looking strings, integral floats, booleans, null) load to the written object and validate alike; a second "
+             "apply_default_config call in one process is unaffected by the first (CrossHair, symbolic leaves).",
         note="Skeleton family is bounded (depth<=3, seeded); dict-vs-leaf clashes excluded. The schema compiler covers the keyword subset "
              "the packaged schema uses and is cross-validated against jsonschema on every solver witness.",
         design="3/C16"),
